@@ -363,9 +363,55 @@ func checkC04(c *Ctx) error {
 	}
 	pool.close()
 	if err == nil {
+		c04Entry(c)
 		c.exhaustive = true
 	}
 	return err
+}
+
+// c04Entry: the ways an application executes a template, with NO data of its own (nil maps): executing returns output or
+// an error there too.
+func c04Entries() map[string]func(string) (string, error) {
+	h := map[string]interface{}{"one": func() int { return 1 }}
+	return map[string]func(string) (string, error){
+		"Render(NewContextWith(nil))": func(s string) (string, error) { return plush.Render(s, plush.NewContextWith(nil)) },
+		"Render(NewContextWithOuter(nil, nil))": func(s string) (string, error) {
+			return plush.Render(s, plush.NewContextWithOuter(nil, nil))
+		},
+		"Render(NewContextWithOuter(nil, parent))": func(s string) (string, error) {
+			return plush.Render(s, plush.NewContextWithOuter(nil, plush.NewContext()))
+		},
+		"BuffaloRenderer(nil, nil)":     func(s string) (string, error) { return plush.BuffaloRenderer(s, nil, nil) },
+		"BuffaloRenderer(nil, helpers)": func(s string) (string, error) { return plush.BuffaloRenderer(s, nil, h) },
+		"BuffaloRenderer(data, nil)": func(s string) (string, error) {
+			return plush.BuffaloRenderer(s, map[string]interface{}{}, nil)
+		},
+		"RunScript(NewContextWith(nil))": func(s string) (string, error) { return "", plush.RunScript("let y = 2", plush.NewContextWith(nil)) },
+	}
+}
+
+func c04Entry(c *Ctx) {
+	srcs := []string{`<%= 1 %>`, `a<% let x = 1 %><%= x %>`, `<% contentFor("c") { %>b<% } %><%= contentOf("c") %>`, `plain`, `<%= nope %>`}
+	for name := range c04Entries() {
+		for _, src := range srcs {
+			c04EntryRun(c, name, src)
+		}
+	}
+}
+
+func c04EntryRun(c *Ctx, name, src string) {
+	f := c04Entries()[name]
+	if f == nil {
+		c.Fail("harness:entry", "unknown entry point "+name, name)
+		return
+	}
+	c.Eval("entry:" + name + ":" + src)
+	c.Rule("entry")
+	o := guarded(5*time.Second, func() (string, error) { return f(src) })
+	if o.Panic != "" || o.Hang {
+		c.Fail("panic@entry:"+name, fmt.Sprintf("%s of %q panicked: %s", name, src, trunc(o.Panic, 140)),
+			map[string]interface{}{"gen": "c04Entry", "entry": name, "source_text": src, "observed": o})
+	}
 }
 
 // c04Isolated renders a template in a process of its own (a fault the Go runtime does not let a process
@@ -422,6 +468,15 @@ func init() {
 }
 
 func c04Run(c *Ctx, raw json.RawMessage) {
+	var ent struct {
+		Gen   string `json:"gen"`
+		Entry string `json:"entry"`
+		Src   string `json:"source_text"`
+	}
+	if json.Unmarshal(raw, &ent) == nil && ent.Gen == "c04Entry" {
+		c04EntryRun(c, ent.Entry, ent.Src)
+		return
+	}
 	var kc kindCase
 	if err := json.Unmarshal(raw, &kc); err != nil {
 		c.Fail("harness:json", err.Error(), string(raw))
